@@ -196,6 +196,27 @@ def core():
     D.append(Def('many_patterns', skips=[R(' +')], variants=[Var(f'K{i:02d}', [T(f'k{i:02d}')]) for i in range(66)] + [
         Var('Semi', [T(';')]), Var('LParen', [T('(')]), Var('Assign', [T(':=')]), Var('Colon', [T(':')]), Var('Id', [R('[a-jl-z]+')])],
         tags=('quick', 'loop')))
+    # a *skip* pattern that ends in a look-ahead (line continuation: a backslash in front of a line end), in a state with
+    # no self loop and no other live pattern; and look-aheads whose confirming byte the repetition in front of them can
+    # also consume, so that a late-accept state carries a self loop
+    D.append(Def('look_skip', skips=[R(r'\\(?m:$)'), R('[ \\n]+')], variants=[Var('W', [R('[a-z]+')]), Var('Semi', [T(';')])],
+                 tags=('look', 'quick')))
+    D.append(Def('look_loop', variants=[Var('Lines', [R('(?m)[a-z\\n]+$')]), Var('As', [R('#a+(?-u:\\B)')]), Var('Sp', [T(' ')]),
+                                        Var('Hash', [T('#')])], tags=('look', 'loop', 'quick')))
+    # skips whose match is a proper prefix of something longer the automaton keeps reading (over-read, then fall back to the
+    # skip): a definition without any callback
+    D.append(Def('skip_overread', skips=[R(r'\.'), R(r'([ \t]|\r?\n)+')], variants=[
+        Var('Ellipsis', [T('...')]), Var('W', [R('[a-z]+')]), Var('Cr', [T('\r\r')])], tags=('quick', 'loop')))
+    # a non-root state with three or more outgoing edges (jump table in the middle of a token) where lexing can die with no
+    # match pending
+    D.append(Def('fork_mid', variants=[
+        Var('Let', [T('let')]), Var('Les', [T('les')]), Var('Lex', [T('lex')]), Var('Hex', [R('0x[0-9a-f]+')]), Var('Bin', [R('0b[01]+')]),
+        Var('Oct', [R('0o[0-7]+')]), Var('Plus', [T('+')])], tags=('quick', 'loop')))
+    # a look-ahead assertion followed by exactly one more byte that itself satisfies the assertion, in the same pattern and
+    # through a second pattern: a state that is both an early accept of the longer match and a late accept of the shorter
+    D.append(Def('look_tail', variants=[
+        Var('Foo', [R('foo(?-u:\\b)-?')]), Var('If', [R('if(?-u:\\b)')]), Var('IfP', [T('if(')]), Var('Minus', [T('-')]),
+        Var('LP', [T('(')]), Var('Sp', [T(' ')])], tags=('look', 'quick')))
     # --- several attributes on one variant
     D.append(Def('multi_attr', variants=[
         Var('Unit', [R('em|ex|ch|rem|vw|vh|vmin|vmax'), R('cm|mm|Q|in|pc|pt|px', prio=3)]),
@@ -540,6 +561,10 @@ def subpattern_family():
         Var('Assigns', [R('(?x) (?&assign) ( , (?&assign) )* ;')]), Var('Pair', [R('<(?&pair)>')]), Var('Plain', [R('\\[(?&assign)\\]')]),
         Var('Kw', [R('(?i)(?&kw)!')]), Var('KwCs', [R('(?&kw)\\?')]), Var('Dots', [R('(?s)~(?&anyc)~')]), Var('DotNoS', [R('@(?&anyc)@')]),
         Var('Sp', [T(' ')])], tags=('subpat', 'quick')))
+    # unescaped parentheses and brackets inside character classes of a subpattern source
+    D.append(Def('sub_paren_class', subs=[('np', '[^()]+'), ('op', '[(\\[{]'), ('grp', '(x|(y))z')], variants=[
+        Var('Call', [R('f\\((?&np)\\)')]), Var('Open', [R('(?&op)!')]), Var('G', [R('(?&grp)+')]), Var('Q', [T('?')])],
+        tags=('subpat', 'quick')))
     D.append(Def('sub_same_a', subs=[('d', '[0-9]'), ('w', '(?&d)+x')], variants=[Var('N', [R('n(?&d)+')]), Var('W', [R('(?&w)')])],
                  tags=('subpat', 'quick')))
     D.append(Def('sub_same_b', subs=[('d', '[a-f]'), ('w', '(?&d)+x')], variants=[Var('N', [R('n(?&d)+')]), Var('W', [R('(?&w)')])],
